@@ -1,7 +1,8 @@
 (* C09 correspondence driver: rebuilds the abstract request of each case line, runs the extracted
    encoder (Model.encode_request) and compares it byte for byte with what the real
-   SerializedRequest::make produced.  Only on a mismatch the property predicate
-   (Model.frame_says = the independent protocol parser applied to the REAL bytes) is evaluated.
+   SerializedRequest::make produced.  The property predicate (Model.frame_says = the independent
+   protocol parser applied to the REAL bytes) is evaluated on every mismatch and, additionally, on
+   a deterministic 1-in-8 sample of the agreeing frames below 20 000 bytes.
    Case syntax: see harness/src/bin/c09.rs. *)
 
 (* Lists of several 10^5 bytes go through non-tail-recursive extracted functions (app, map):
@@ -198,7 +199,7 @@ let verdict_blob comp len impl =
   let len = n_of_hex len in
   let ms = function Ok b -> "len " ^ hex_of_n b ^ " " ^ hex_of_n b | Err b -> "err body-too-long " ^ hex_of_n b in
   match impl with
-  | ["skipped"] -> "ok not-run-strict-overcommit"
+  | ["skipped"] -> "ok not-run-allocation-refused"
   | ["len"; p; f] ->
     let p = n_of_hex p and f = n_of_hex f in
     if f <> p then
@@ -246,7 +247,9 @@ let verdict_big what len impl =
   | _ -> "error bad-impl-output"
 
 (* C census: the crate's public constants against the model's tables; the model's private flag
-   bits are printed in the verdict for the source scan of checks/c09.py *)
+   bits (6 query + 2 batch values computed by qp_flags / batch_flags) are printed in the verdict for
+   the source scan of checks/c09.py.  WITH_NAMES_FOR_VALUES:40 is a literal of this driver, not a
+   model value: the model never sets that bit, its parser refuses it (PNamedValues, bit 6). *)
 let verdict_census impl =
   let qp0 = { qp_consistency = One; qp_serial = None; qp_timestamp = None; qp_page_size = None;
               qp_paging = None; qp_skip_metadata = false; qp_values = [] } in
@@ -437,7 +440,7 @@ let verdict_row kind cols row impl =
     verdict_frame None false (Execute ([byte_tab.(12); byte_tab.(9)], None, qp)) impl
   | _, _ -> "error bad-impl-output"
 
-let verdict case impl =
+let verdict_inner case impl =
   match case with
   | ["L"; n; t] -> verdict_len n t impl
   | ["M"; c; _; len] -> verdict_blob (comp_of c) len impl
@@ -454,5 +457,11 @@ let verdict case impl =
     | "S" :: _, "ok" :: _ :: rest -> "ok" :: rest
     | _ -> impl in
   verdict_frame comp tr r impl
+
+(* Where the host forbids raising the stack limit (hard RLIMIT_STACK), the 65 534..65 537-element boundary cases
+   overflow the stack inside the non-tail-recursive extracted list functions: a counted not-run (WARNING and cap
+   in checks/c09.py), never an error verdict. *)
+let verdict case impl =
+  try verdict_inner case impl with Stack_overflow -> "ok not-run-stack-limit"
 
 let () = run_lines verdict
